@@ -503,15 +503,11 @@ class Fx(object):
         body = fs.get("body") or {}
         rets = [x for x in facts.fn_nodes(fs) if x["k"] == "ReturnStmt" and x.get("c")]
         pt = facts.tyi(fs, fs["params"][0].get("t")) or {}
-        if len(rets) == 1 and pt.get("k") == "int" and len(list(facts.fn_nodes(fs))) < 60:
-            from . import bits
-            locs = {}
-            for x in facts.fn_nodes(fs):
-                if x["k"] == "VarDecl" and x.get("c"):
-                    locs[x["var"]] = x["c"][0]
+        if rets and pt.get("k") == "int" and len(list(facts.fn_nodes(fs))) < 80:
+            # exhaustive finite evaluation of the whole body (however its branches are spelled) on 0..514
             pv = fs["params"][0]["var"]
             try:
-                vals = [ieval.ev(fs, rets[0]["c"][0], {pv: x}, locs) for x in range(0, 515)]
+                vals = [ieval.run_body(fs, body, {pv: x}) for x in range(0, 515)]
                 for kk in (2, 4, 8, 16):
                     if all(vals[x] == ((x + kk - 1) // kk) * kk for x in range(0, 515)):
                         res = kk
@@ -588,6 +584,10 @@ class Fx(object):
                         self.sync(ctx, env)
                         env["§ret"] = self.form(ctx, s["c"][0])
                         self.unsync(ctx)
+                env["§done"] = True
+                return env
+            if k == "ContinueStmt":
+                # ends this pass through the enclosing loop body: the rest of the body is not run on this path
                 env["§done"] = True
                 return env
             if k in ("ForStmt", "WhileStmt", "DoStmt", "CXXForRangeStmt"):
@@ -725,7 +725,7 @@ class Fx(object):
             if k == "CXXMemberCallExpr" and len(x["c"]) >= 3 and len(ctx.f["params"]) >= 2 and \
                     [strip(a).get("var") for a in x["c"][1:3]] == [p["var"] for p in ctx.f["params"][:2]]:
                 return True
-            if k in ("ReturnStmt", "CXXThrowExpr"):
+            if k in ("ReturnStmt", "CXXThrowExpr", "ContinueStmt"):
                 return True
             if k in ("BinaryOperator", "CompoundAssignOperator") and x.get("op", "") in ("=", "+=", "-=", "*=", "|=", "&="):
                 t = strip(x["c"][0])
@@ -1265,10 +1265,15 @@ class Fx(object):
 
 
 def has_return(n):
-    for x in facts.walk(n):
-        if x["k"] == "ReturnStmt":
+    """the statement may leave the enclosing statement list (return, or continue of the enclosing loop)"""
+    def go(x, inloop):
+        if not isinstance(x, dict):
+            return False
+        if x["k"] == "ReturnStmt" or (x["k"] == "ContinueStmt" and not inloop):
             return True
-    return False
+        il = inloop or x["k"] in ("ForStmt", "WhileStmt", "DoStmt", "CXXForRangeStmt")
+        return any(go(c, il) for c in x.get("c", ()) if c is not None)
+    return go(n, False)
 
 
 def type_size(db, t):
